@@ -46,6 +46,7 @@ Call(kind) ==
   /\ LET x == CASE kind = "grounded" -> LET g == GroundedInternalR(S, ac) IN R(g.S, <<g.r>>)
                 [] kind = "complete" -> CompleteR(S, ac)
                 [] kind = "stable"   -> StableR(S, ac)
+                [] kind = "prefilter" -> PrefilterR(S, ac)
      IN S' = x.S /\ lastAns' = x.r
   /\ UNCHANGED <<ac, tt>>
 
@@ -55,7 +56,7 @@ Extra == /\ ncalls < MaxCalls /\ ncalls' = ncalls + 1 /\ lastKind' = "extra"
               S' = Apply(S, op, a, b, 0, FALSE).S
          /\ lastAns' = <<>> /\ UNCHANGED <<ac, tt>>
 
-Next == Call("grounded") \/ Call("complete") \/ Call("stable") \/ Extra
+Next == Call("grounded") \/ Call("complete") \/ Call("stable") \/ Call("prefilter") \/ Extra
 Spec == Init /\ [][Next]_vars
 
 \* ---- properties
@@ -64,7 +65,7 @@ AnswerOK ==
   LET tvs == [k \in DOMAIN lastAns |-> TVseq(lastAns[k])] IN
   CASE lastKind = "grounded" -> tvs = <<Grounded(tt, N)>>
     [] lastKind = "complete" -> ExactlyOnce(tvs, Complete(tt, N)) /\ tvs[1] = Grounded(tt, N)
-    [] lastKind = "stable"   -> ExactlyOnce(tvs, Stable(tt, N))
+    [] lastKind \in {"stable", "prefilter"} -> ExactlyOnce(tvs, Stable(tt, N))
     [] OTHER -> TRUE
 \* residual handles of undecided positions denote the acceptance condition restricted by the decided statements
 ResidualOK ==
